@@ -196,7 +196,7 @@ def check_sums(F, S, tss, classes, s, roles, inv, post_expect, out_expect, rid, 
                 ok = u.eq(got, want) or (r_ in NONNEG_ROLES and inactive_clamp(got, want, u.eq))
                 if ok:
                     import specs
-                    hz = specs.float_hazard(heap.get("self." + b[r_], ("pre", "self." + b[r_])), want)
+                    hz = specs.float_hazard(heap.get("self." + b[r_], ("pre", "self." + b[r_])), want, pre_map)
                     if hz:
                         ok = False
                         fails.append("%s%s: `%s'` is computed with %s: equal to the window functional in real arithmetic only" % (which, " (first call)" if zero else "", b[r_], hz))
@@ -227,7 +227,7 @@ def check_sums(F, S, tss, classes, s, roles, inv, post_expect, out_expect, rid, 
                     fails.append("%s%s: output %s is not %s" % (which, " (first call)" if zero else "", show(got)[:110], show(oe)[:90]))
                 else:
                     import specs
-                    hz = specs.float_hazard(ret, oe)
+                    hz = specs.float_hazard(ret, oe, pre_map)
                     if hz:
                         fails.append("%s%s: the output is computed with %s: equal to the statistic in real arithmetic only" % (which, " (first call)" if zero else "", hz))
         if best is None or len(fails) < len(best[1]):
@@ -353,7 +353,10 @@ def extreme_unit(F, S, struct, rid, transform=None):
     ex = r["exec"]
     from rules_c14 import unstrict
     tr0 = tr
-    tr = lambda t: unstrict(tr0(t))  # which of two equal slots is remembered does not matter for the value returned
+    # In the rescan, which of two EQUAL slots is remembered does not matter for the value returned (`<` and `<=` pick the first / the
+    # last least element).  In the step it does matter: `input <= cached` is certainly true when the cached slot was just overwritten,
+    # and would skip the rescan.  So only the rescan's comparison is read modulo strictness (tr_scan below).
+    tr_scan = lambda t: unstrict(tr0(t))
     heap = {tr(k): tr(v) for k, v in r["heap"].items()}
     ret = tr(r["ret"])
     curs = [tr(c) for c in ts.cursors]
@@ -409,7 +412,7 @@ def extreme_unit(F, S, struct, rid, transform=None):
     ok = False
     why = "the rescan is not a single enumerate loop over the whole window"
     if li is not None:
-        summ = {k: tr(v) for k, v in li["summaries"].items()}
+        summ = {k: tr_scan(v) for k, v in li["summaries"].items()}
         iv = ("ivar", lid)
         b = ex.ivar_bounds.get(iv, {})
         elem = ("select", d2, iv)
